@@ -71,7 +71,7 @@ CLAUSES = ["step-non-increase", "propagate-non-increase", "kernel-modulus", "tra
            "aperture-flat-zone", "vacuum-preserves-intensity", "reversible", "pipeline-reach", "propagate-intensity-budget",
            "reuse-preserves-intensity", "reuse-reversible"]
 QUICK = dict(n=400, time=35)
-THOROUGH = dict(n=6400, time=270, shards=16)
+THOROUGH = dict(n=45930, time=480, shards=16)
 
 TOL = {"float32": dict(inc=2e-5, mod=2e-5, rev=2e-4, vac=2e-5), "float64": dict(inc=1e-11, mod=1e-12, rev=1e-10, vac=1e-11)}
 # |observed after/before - float64 model of the band-limited step|; the float64 value is limited by the 5e-9 relative
